@@ -230,6 +230,13 @@ func failureOracle(inc *Inc, ex *Expect, victim *RTask, what string) Verdict {
 	for d := range dep {
 		depKeys[d.Key] = true
 	}
+	for _, p := range victim.Outs {
+		if ex.StreamPaths[Abs(p)] {
+			// the consumer of a STREAMED output runs at the same time as its
+			// producer by design: the "no dependant executes" clause cannot apply
+			depKeys = map[string]bool{}
+		}
+	}
 	for _, e := range s.Shell.Trace {
 		if e.Kind == "start" && depKeys[e.Key] {
 			return Viol("dependant-executed", what, "%s of task %s, yet the dependent task %s was executed", what, victim.Key, e.Key)
@@ -237,6 +244,9 @@ func failureOracle(inc *Inc, ex *Expect, victim *RTask, what string) Verdict {
 	}
 	// whatever did get finalized must still be correct (and never from the victim)
 	for p, e := range files {
+		if o := ex.Owner[p]; o != nil && dep[o] {
+			continue // descendants of the victim (only reachable through a streamed output): nothing is promised
+		}
 		if want, ok := ex.Files[p]; ok && e.Kind == simrt.KFile && string(e.Data) != string(want) {
 			return Viol("wrong-content", what, "after the failure, finalized output %s has content %q, reference %q", p, clip(e.Data), clip(want))
 		}
@@ -248,7 +258,12 @@ func init() {
 	Register(&Check{ID: "C09", Level: "exploration",
 		Rule: "one case = one generated workflow, one tape-chosen victim task and one failure kind (cmd-exit before / after partial write / after all outputs, cmd-signal at a tape-chosen micro-step, cmd-omit of one declared output, bad-input: empty parameter value or invalid character in the output path) injected while sibling tasks run under a tape-chosen schedule. Oracle: exit status != 0, RUN-RETURNED marker absent, no output of the victim at its final path, no start event of any transitive dependant, everything else that was finalized is reference-correct. distinct = event-log hash; non-trivial = the fault fired, >=1 other task executed, >=1 non-default choice",
 		Run: func(c *Case) Verdict {
-			w := Generate(c.Tape, tierProfile(profC09, c.Tier))
+			var w *WF
+			if c.Tape.Choose(simrt.StGen, 8, 0) == 1 {
+				w = streamWF(c) // the failing command may be a streaming producer or its consumer
+			} else {
+				w = Generate(c.Tape, tierProfile(profC09, c.Tier))
+			}
 			ex := Eval(w)
 			var cands []*RTask
 			for _, t := range ex.Tasks {
@@ -300,13 +315,44 @@ func init() {
 			if victim == nil {
 				victim = cands[c.Tape.Choose(simrt.StFault, len(cands), 0)]
 				mode := simrt.FailMode(1 + kind)
+				for _, p := range victim.Outs {
+					if ex.StreamPaths[Abs(p)] && mode == simrt.FailOmit {
+						// "not producing" a streamed output means never opening the FIFO:
+						// outside the statement (streamed outputs are exempt from the
+						// existence check); use an early exit instead
+						mode = simrt.FailExitBefore
+					}
+				}
 				arg := c.Tape.Choose(simrt.StFault, 6, 0)
 				what = mode.String()
 				fault = &FaultSpec{Key: victim.Key, Mode: mode, Arg: arg}
 			}
+			// sometimes a second, independent task fails in the same run
+			var fault2 *FaultSpec
+			var victim2 *RTask
+			if fault != nil && len(cands) > 1 && c.Tape.Choose(simrt.StFault, 4, 0) == 1 {
+				dep := dependents(ex, victim)
+				var c2 []*RTask
+				for _, t := range cands {
+					if t != victim && !dep[t] && !dependents(ex, t)[victim] {
+						c2 = append(c2, t)
+					}
+				}
+				if len(c2) > 0 {
+					victim2 = c2[c.Tape.Choose(simrt.StFault, len(c2), 0)]
+					fault2 = &FaultSpec{Key: victim2.Key, Mode: simrt.FailMode(1 + c.Tape.Choose(simrt.StFault, 5, 0)), Arg: c.Tape.Choose(simrt.StFault, 6, 0)}
+					what += " (and " + fault2.Mode.String() + " of " + victim2.Key + ")"
+					c.Fault("second-failure")
+				}
+			}
 			c.Sample = "fail " + victim.Key + " by " + what + ": " + sample(w)
-			inc := RunInc(w, c.Tape, nil, 0, IncOpts{KillAt: -1, Strategy: strategyOf(c.Tape), Trace: c.Trace, Fault: fault})
+			inc := RunInc(w, c.Tape, nil, 0, IncOpts{KillAt: -1, Strategy: strategyOf(c.Tape), Trace: c.Trace, Fault: fault, Fault2: fault2})
 			c.Absorb(inc)
+			if victim2 != nil && fault2.Hit {
+				if v := failureOracle(inc, ex, victim2, what); v.Status != "ok" {
+					return v
+				}
+			}
 			if fault != nil && !fault.Hit {
 				// the victim was never started - only legal if something else went wrong first
 				if completedOK(inc) {
